@@ -15,9 +15,13 @@
     as far as it is consulted: 1 = Mn/Mc/Me, 2 = Zs, 0 = anything else), `hi` (high byte: modified ccc,
     ZWJ/ZWNJ bits or space fallback type) and the three flag bits;
   * cluster level is 0 or 1 (`merge_clusters` / `merge_out_clusters` do merge); level 2 is outside;
-  * clusters containing a variation selector (`handle_variation_selector_cluster`) are outside the
-    model: `normalize` returns `none` for them, as it does when the recursion budget of `decompose`
-    (which is unbounded in Rust) is exhausted.
+  * clusters containing a variation selector go through `handle_variation_selector_cluster`
+    (`vsLoop`): the face's cmap format 14 subtable is the parameter `Font.variant`, the buffer's
+    `not_found_variation_selector.is_some()` is `Font.nfvs`; `replace_glyphs(2, 1)` merges the clusters of
+    base and selector, which may relabel records already in the out-buffer and records still to come,
+    so the first round threads the whole zipper (`out`, `inp`);
+  * `normalize` returns `none` when the recursion budget of `decompose` (which is unbounded in Rust) is
+    exhausted.
 
   Core Lean only, imports nothing outside RbModel (the driver links this file).
 -/
@@ -57,6 +61,8 @@ structure Consts where
   flagSpaceFallback : Nat
   flagCGJ : Nat
   glyphFlagDefined : Nat
+  /-- `HB_BUFFER_SCRATCH_FLAG_HAS_VARIATION_SELECTOR_FALLBACK` -/
+  flagVSFallback : Nat := 0x80
 
 /-- Unicode data the normalizer consults; theorems quantify over it, the driver and the table
     theorems instantiate it with `genU` (tables dumped from the compiled crate). -/
@@ -80,6 +86,11 @@ structure Font where
   glyph : Nat → Option Nat
   /-- `buffer.invisible` -/
   invisible : Option Nat := none
+  /-- `hb_font_t::glyph_variation_index(base, selector)` (cmap format 14; a default-UVS hit is the
+      nominal glyph of the base) -/
+  variant : Nat → Nat → Option Nat := fun _ _ => none
+  /-- `buffer.not_found_variation_selector.is_some()` -/
+  nfvs : Bool := false
 
 def Font.has (F : Font) (c : Nat) : Bool := (F.glyph c).isSome
 
@@ -187,7 +198,8 @@ def lastOf : Info → List Info → Info
 
 /-- the "extend start" loop of `merge_clusters_impl` with `idx = 0`:
     `while idx < start && info[start-1].cluster == info[start].cluster { start -= 1 }`;
-    `pre` = `info[0..start]`, `c0` = `info[start].cluster`.  The records reached get `cluster`. -/
+    `pre` = `info[0..start]`, `c0` = `info[start].cluster`.  The records reached get `cluster`.
+    Also the "continue in out-buffer" loop of the same function (`pre` = `out_info()[..out_len]`). -/
 def extendStart (K : Consts) (pre : List Info) (c0 cluster : Nat) : List Info :=
   (pre.reverse.dropWhile (fun i => i.cluster == c0)).reverse ++
     ((pre.reverse.takeWhile (fun i => i.cluster == c0)).reverse).map (setCluster K · cluster)
@@ -328,11 +340,94 @@ def simpleRun (U : UData) (F : Font) (K : Consts) (fuel : Nat) (might : Bool) :
       | none => decomposeRun U F K fuel might (x :: xs) flags
     else decomposeRun U F K fuel might (x :: xs) flags
 
-/-- src: ot_shape_normalize.rs::decompose_multi_char_cluster (variation selectors: outside, `none`) -/
+/-! ### clusters with a variation selector -/
+
+/-- src: ot_shape_normalize.rs::set_glyph -/
+def setGlyph (F : Font) (i : Info) : Info :=
+  match F.glyph i.cp with
+  | some g => { i with gidx := g }
+  | none => i
+
+/-- src: ot_layout.rs::_hb_glyph_info_set_variation_selector(info, true): the general category becomes
+    Format (`_hb_glyph_info_set_general_category` clears the high byte, keeps bits 5..7), then `CF_VS`
+    (0x0400) is set; followed, when `not_found_variation_selector` is set, by
+    `_hb_glyph_info_clear_default_ignorable`. -/
+def customizeVS (F : Font) (i : Info) : Info :=
+  { i with props := { i.props with cls := 0, hi := 4, ign := if F.nfvs then false else i.props.ign } }
+
+/-- src: buffer.rs::hb_buffer_t::merge_clusters_impl(idx, idx + 2) as called by `replace_glyphs(2, 1, ..)`
+    while the first round has an out-buffer (cluster level ≠ CHARACTERS): `out` = `out_info()[..out_len]`,
+    `a` = `info[idx]`, `b` = `info[idx+1]`, `rest` = `info[idx+2..len]`.
+    "Extend end" runs into the records still to come, "extend start" cannot move (`idx < start` is
+    false) and continues in the out-buffer. -/
+def mergeClusters2 (K : Consts) (out : List Info) (a b : Info) (rest : List Info) :
+    List Info × Info × Info × List Info :=
+  let cluster := min a.cluster b.cluster
+  let n := if cluster ≠ b.cluster then (rest.takeWhile (fun i => i.cluster == b.cluster)).length else 0
+  let out' := if a.cluster ≠ cluster then extendStart K out a.cluster cluster else out
+  (out', setCluster K a cluster, setCluster K b cluster,
+    (rest.take n).map (setCluster K · cluster) ++ rest.drop n)
+
+/-- `// Skip any further variation selectors.`
+    `while idx < end && cur(0) is a variation selector { set_glyph(cur(0)); next_glyph() }`;
+    `n` = `end - idx`.  Returns the records copied to the out-buffer, the remaining input and `end - idx`. -/
+def vsSkip (U : UData) (F : Font) : List Info → Nat → List Info × List Info × Nat
+  | x :: inp, n + 1 =>
+    if U.isVS x.cp then
+      (setGlyph F x :: (vsSkip U F inp n).1, (vsSkip U F inp n).2.1, (vsSkip U F inp n).2.2)
+    else ([], x :: inp, n + 1)
+  | inp, n => ([], inp, n)
+
+theorem vsSkip_le (U : UData) (F : Font) (inp : List Info) (n : Nat) : (vsSkip U F inp n).2.2 ≤ n := by
+  fun_induction vsSkip U F inp n <;> simp_all <;> omega
+
+theorem vsSkip_length (U : UData) (F : Font) (inp : List Info) (n : Nat) :
+    (vsSkip U F inp n).2.1.length + (n - (vsSkip U F inp n).2.2) = inp.length := by
+  fun_induction vsSkip U F inp n with
+  | case1 x inp n h ih =>
+    have := vsSkip_le U F inp n
+    simp only [List.length_cons]; omega
+  | case2 => simp
+  | case3 => simp
+
+/-- src: ot_shape_normalize.rs::handle_variation_selector_cluster.  First argument: `end - idx`;
+    `out` = `out_info()[..out_len]`, `inp` = `info[idx..len]`.  Returns the new out-buffer, the remaining
+    input `info[end..len]` (its clusters may have been merged into the cluster of a base + selector pair
+    the font has a variant for) and the scratch flags. -/
+def vsLoop (U : UData) (F : Font) (K : Consts) : Nat → List Info → List Info → Nat → List Info × List Info × Nat
+  | n + 2, out, a :: b :: rest, flags =>            -- while idx < end - 1
+    if U.isVS b.cp then
+      match F.variant a.cp b.cp with
+      | some g =>
+        -- cur_mut(0).set_glyph_index(variant); replace_glyphs(2, 1, &[unicode]); then skip further selectors
+        vsLoop U F K (vsSkip U F (mergeClusters2 K out { a with gidx := g } b rest).2.2.2 n).2.2
+          ((mergeClusters2 K out { a with gidx := g } b rest).1 ++
+            (mergeClusters2 K out { a with gidx := g } b rest).2.1 ::
+              (vsSkip U F (mergeClusters2 K out { a with gidx := g } b rest).2.2.2 n).1)
+          (vsSkip U F (mergeClusters2 K out { a with gidx := g } b rest).2.2.2 n).2.1 flags
+      | none =>
+        -- Just pass on the two characters separately, let GSUB do its magic; then skip further selectors
+        vsLoop U F K (vsSkip U F rest n).2.2
+          (out ++ setGlyph F a :: setGlyph F (customizeVS F b) :: (vsSkip U F rest n).1)
+          (vsSkip U F rest n).2.1 (flags ||| K.flagVSFallback)
+    else vsLoop U F K (n + 1) (out ++ [setGlyph F a]) (b :: rest) flags
+  | 1, out, a :: rest, flags => (out ++ [setGlyph F a], rest, flags)   -- if idx < end
+  | _, out, inp, flags => (out, inp, flags)
+termination_by n => n
+decreasing_by
+  · have := vsSkip_le U F (mergeClusters2 K out { a with gidx := g } b rest).2.2.2 n; omega
+  · have := vsSkip_le U F rest n; omega
+  · omega
+
+/-- src: ot_shape_normalize.rs::decompose_multi_char_cluster.  `n` = `end - idx` (the cluster is
+    `inp.take n`); only the cluster itself is scanned for a variation selector. -/
 def multiCharCluster (U : UData) (F : Font) (K : Consts) (fuel : Nat) (always : Bool)
-    (xs : List Info) (flags : Nat) : Option (List Info × Nat) :=
-  if xs.any (fun i => U.isVS i.cp) then none
-  else decomposeRun U F K fuel always xs flags
+    (out inp : List Info) (n : Nat) (flags : Nat) : Option (List Info × List Info × Nat) :=
+  if (inp.take n).any (fun i => U.isVS i.cp) then some (vsLoop U F K n out inp flags)
+  else
+    match decomposeRun U F K fuel always (inp.take n) flags with
+    | none => none
+    | some (o, flags) => some (out ++ o, inp.drop n, flags)
 
 /-- `(init, last)` of `x :: ys` -/
 def splitLast : Info → List Info → List Info × Info
@@ -349,12 +444,65 @@ theorem length_takeWhile_le (p : Info → Bool) (l : List Info) : (l.takeWhile p
   | nil => simp
   | cons a l ih => simp only [List.takeWhile_cons]; split <;> simp <;> omega
 
+theorem length_mergeClusters2 (K : Consts) (out : List Info) (a b : Info) (rest : List Info) :
+    (mergeClusters2 K out a b rest).2.2.2.length = rest.length := by
+  simp only [mergeClusters2, List.length_append, List.length_map, List.length_take, List.length_drop]
+  split
+  · have := length_takeWhile_le (fun i : Info => i.cluster == b.cluster) rest
+    omega
+  · omega
+
+/-- the variation-selector round consumes exactly the cluster -/
+theorem length_vsLoop (U : UData) (F : Font) (K : Consts) (n : Nat) (out inp : List Info) (flags : Nat)
+    (h : n ≤ inp.length) : (vsLoop U F K n out inp flags).2.1.length = inp.length - n := by
+  fun_induction vsLoop U F K n out inp flags with
+  | case1 n out a b rest flags hvs g hg ih =>
+    have h1 := vsSkip_length U F (mergeClusters2 K out { a with gidx := g } b rest).2.2.2 n
+    have h2 := vsSkip_le U F (mergeClusters2 K out { a with gidx := g } b rest).2.2.2 n
+    have h3 := length_mergeClusters2 K out { a with gidx := g } b rest
+    simp only [List.length_cons] at h
+    rw [ih (by omega)]
+    simp only [List.length_cons]
+    omega
+  | case2 n out a b rest flags hvs hg ih =>
+    have h1 := vsSkip_length U F rest n
+    have h2 := vsSkip_le U F rest n
+    simp only [List.length_cons] at h
+    rw [ih (by omega)]
+    simp only [List.length_cons]
+    omega
+  | case3 n out a b rest flags hvs ih =>
+    simp only [List.length_cons] at h
+    rw [ih (by simp only [List.length_cons]; omega)]
+    simp only [List.length_cons]
+    omega
+  | case4 out a rest flags => simp
+  | case5 n out inp flags h1 h2 =>
+    match n, inp with
+    | 0, _ => simp
+    | 1, [] => simp at h
+    | 1, a :: rest => exact absurd rfl (h2 a rest rfl)
+    | n + 2, [] => simp at h
+    | n + 2, [a] => simp at h
+    | n + 2, a :: b :: rest => exact absurd rfl (h1 n a b rest rfl)
+
+theorem length_multiCharCluster (U : UData) (F : Font) (K : Consts) (fuel : Nat) (always : Bool)
+    (out inp : List Info) (n flags : Nat) (r : List Info × List Info × Nat) (hn : n ≤ inp.length)
+    (h : multiCharCluster U F K fuel always out inp n flags = some r) : r.2.1.length = inp.length - n := by
+  unfold multiCharCluster at h
+  split at h
+  · cases h; exact length_vsLoop U F K n out inp flags hn
+  · split at h
+    · cases h
+    · cases h; simp
+
 /-- src: ot_shape_normalize.rs::_hb_ot_shape_normalize, "First round, decompose" (the `loop`).
-    `inp` = `info[idx..count]`; returns the records appended to the out-buffer, the flags and `all_simple`. -/
+    `out` = `out_info()[..out_len]`, the second list is `info[idx..count]`; returns the out-buffer at the
+    end of the round, the flags and `all_simple`. -/
 def round1 (U : UData) (F : Font) (K : Consts) (fuel : Nat) (might always : Bool) :
-    List Info → Nat → Bool → Option (List Info × Nat × Bool)
-  | [], flags, allSimple => some ([], flags, allSimple)
-  | x :: rest, flags, allSimple =>
+    List Info → List Info → Nat → Bool → Option (List Info × Nat × Bool)
+  | out, [], flags, allSimple => some (out, flags, allSimple)
+  | out, x :: rest, flags, allSimple =>
     -- end = idx + 1; while end < count && !is_unicode_mark(info[end]) { end += 1 }
     let ys := rest.takeWhile (fun i => !i.isMark)
     match h : rest.dropWhile (fun i => !i.isMark) with
@@ -362,28 +510,28 @@ def round1 (U : UData) (F : Font) (K : Consts) (fuel : Nat) (might always : Bool
       -- end == count: everything left is simple
       match simpleRun U F K fuel might (x :: ys) flags with
       | none => none
-      | some (o, flags) => some (o, flags, allSimple)
+      | some (o, flags) => some (out ++ o, flags, allSimple)
     | z :: zs =>
       -- end < count: leave one base for the marks to cluster with
       let sl := splitLast x ys
       match simpleRun U F K fuel might sl.1 flags with
       | none => none
       | some (o1, flags) =>
-        -- all_simple = false; find all the marks now
-        let ms := (z :: zs).takeWhile (fun i => i.isMark)
-        have : ((z :: zs).dropWhile (fun i => i.isMark)).length < (x :: rest).length := by
-          have h1 := length_dropWhile_le (fun i => i.isMark) (z :: zs)
-          have h2 := length_dropWhile_le (fun i => !i.isMark) rest
-          rw [h] at h2
-          simp only [List.length_cons] at *
-          omega
-        match multiCharCluster U F K fuel always (sl.2 :: ms) flags with
+        -- all_simple = false; find all the marks now: end - idx
+        let n := 1 + ((z :: zs).takeWhile (fun i => i.isMark)).length
+        match h2 : multiCharCluster U F K fuel always (out ++ o1) (sl.2 :: z :: zs) n flags with
         | none => none
-        | some (o2, flags) =>
-          match round1 U F K fuel might always ((z :: zs).dropWhile (fun i => i.isMark)) flags false with
-          | none => none
-          | some (o3, flags, allSimple) => some (o1 ++ o2 ++ o3, flags, allSimple)
-termination_by inp => inp.length
+        | some r =>
+          have : r.2.1.length < (x :: rest).length := by
+            have h0 := length_takeWhile_le (fun i : Info => i.isMark) (z :: zs)
+            have h1 := length_multiCharCluster U F K fuel always (out ++ o1) (sl.2 :: z :: zs) n flags r
+              (by simp only [List.length_cons] at h0 ⊢; omega) h2
+            have h3 := length_dropWhile_le (fun i => !i.isMark) rest
+            rw [h] at h3
+            simp only [List.length_cons] at *
+            omega
+          round1 U F K fuel might always r.1 r.2.1 r.2.2 false
+termination_by _ inp => inp.length
 
 theorem length_extendStart (K : Consts) (pre : List Info) (c0 cluster : Nat) :
     (extendStart K pre c0 cluster).length = pre.length := by
@@ -578,7 +726,7 @@ def normalize (U : UData) (F : Font) (K : Consts) (fuel : Nat) (pref : Nat) (buf
     let mode := if pref = 4 then 2 else pref
     let always := mode == 0
     let might := always || (mode != 1 && mode != 3)
-    match round1 U F K fuel might always buf flags true with
+    match round1 U F K fuel might always [] buf flags true with
     | none => none
     | some (l, flags, allSimple) =>
       let l := if !allSimple then round2 K [] l else l
@@ -596,7 +744,7 @@ def genH : Hangul :=
 def genK : Consts :=
   { maxMarks := Gen.Norm.maxCombiningMarks, flagNonAscii := Gen.Norm.flagNonAscii, flagDI := Gen.Norm.flagDI,
     flagSpaceFallback := Gen.Norm.flagSpaceFallback, flagCGJ := Gen.Norm.flagCGJ,
-    glyphFlagDefined := Gen.Norm.glyphFlagDefined }
+    glyphFlagDefined := Gen.Norm.glyphFlagDefined, flagVSFallback := Gen.Norm.flagVSFallback }
 
 def genU : UData :=
   { decomp := decomposeU genH Gen.Norm.decompTable
